@@ -24,7 +24,18 @@
 #include "QXmppIq.h"
 #include "QXmppLogger.h"
 #include "QXmppMamManager.h"
+#include "QXmppAccountMigrationManager.h"
 #include "QXmppMessage.h"
+#include "QXmppMixConfigItem.h"
+#include "QXmppMixInfoItem.h"
+#include "QXmppMixInvitation.h"
+#include "QXmppMixIq.h"
+#include "QXmppMixParticipantItem.h"
+#include "QXmppUserTuneItem.h"
+#include "QXmppGeolocItem.h"
+#include "QXmppMixManager.h"
+#include "QXmppMovedManager.h"
+#include "QXmppUserTuneManager.h"
 #include "QXmppOutgoingClient.h"
 #include "QXmppOutgoingClient_p.h"
 #include "QXmppPubSubBaseItem.h"
@@ -445,13 +456,24 @@ public:
         jobs.push_back(Job { idx, std::move(p), std::move(m) });
         return t;
     }
+    bool deferIq = false;   // part F: encryptIq / decryptIq report when the harness says so
+    struct EncJob { QXmppPromise<IqEncryptResult> p; QXmppIq iq; bool done = false; };
+    struct DecJob { QXmppPromise<IqDecryptResult> p; QDomElement el; bool done = false; };
+    std::vector<EncJob> encJobs;
+    std::vector<DecJob> decJobs;
     QXmppTask<IqEncryptResult> encryptIq(QXmppIq &&iq, const std::optional<QXmppSendStanzaParams> &) override
     {
-        QXmppPromise<IqEncryptResult> p; p.finish(std::make_unique<QXmppIq>(std::move(iq))); return p.task();
+        QXmppPromise<IqEncryptResult> p;
+        auto t = p.task();
+        if (deferIq) { encJobs.push_back(EncJob { std::move(p), std::move(iq) }); return t; }
+        p.finish(std::make_unique<QXmppIq>(std::move(iq))); return t;
     }
-    QXmppTask<IqDecryptResult> decryptIq(const QDomElement &) override
+    QXmppTask<IqDecryptResult> decryptIq(const QDomElement &el) override
     {
-        QXmppPromise<IqDecryptResult> p; p.finish(IqDecryptResult { NotEncrypted {} }); return p.task();
+        QXmppPromise<IqDecryptResult> p;
+        auto t = p.task();
+        if (deferIq) { decJobs.push_back(DecJob { std::move(p), el }); return t; }
+        p.finish(IqDecryptResult { NotEncrypted {} }); return t;
     }
     bool isEncrypted(const QDomElement &el) override
     {
@@ -791,6 +813,164 @@ static void enumNeg(const std::vector<std::string> &alpha, int depth, std::vecto
     for (auto &a : alpha) { cur.push_back(a); enumNeg(alpha, depth, cur); cur.pop_back(); }
 }
 
+// ------------------------------------------------------------------------------------------------ Part E
+// QXmppBlockingManager::fetchBlocklist: one IQ shared by all waiting callers, cached list, reset on a new session.
+struct BlkEnv {
+    std::unique_ptr<TestClient> c;
+    QXmppBlockingManager *m = nullptr;
+    QObject ctx;
+    std::vector<int> counts;
+    std::vector<std::pair<int, std::string>> evs;
+    QString pendingId;
+    std::string history;
+
+    BlkEnv()
+    {
+        c = std::make_unique<TestClient>(QStringLiteral("me@own.org/res"));
+        m = c->addNewExtension<QXmppBlockingManager>();
+    }
+    std::string apply(const std::string &op)
+    {
+        evs.clear();
+        history += op + ";";
+        stat("blkop:" + op);
+        if (op == "fetch") {
+            int n = (int)counts.size();
+            counts.push_back(0);
+            int before = c->sent.size();
+            m->fetchBlocklist().then(&ctx, [this, n](QXmppBlockingManager::BlocklistResult &&r) {
+                counts[n]++;
+                if (counts[n] > 1) oracleFail("C07:blk:call-completed-twice", history);
+                evs.push_back({ n, std::holds_alternative<QXmppBlocklist>(r) ? "ok" : "err" });
+            });
+            for (int k = before; k < c->sent.size(); k++) if (c->sent[k].startsWith(QL("<iq"))) pendingId = attrOf(c->sent[k], QStringLiteral("id"));
+        } else if (op == "iqok" || op == "iqerr") {
+            if (!pendingId.isEmpty()) {
+                QString id = pendingId; pendingId.clear();
+                if (op == "iqok") c->inject(QL("<iq xmlns='jabber:client' type='result' id='") + id + QL("'><blocklist xmlns='urn:xmpp:blocking'><item jid='eve@evil.org'/></blocklist></iq>"));
+                else c->inject(QL("<iq xmlns='jabber:client' type='error' id='") + id + QL("'><error type='cancel'><service-unavailable xmlns='") + Q(NS_STANZA) + QL("'/></error></iq>"));
+                // the shared IQ has been answered: nobody may be left waiting
+                bool all = true; for (int x : counts) all = all && x == 1;
+                if (!all) oracleFail("C07:blk:caller-left-waiting", history); else oraclePass()++;
+            }
+        } else if (op == "newsess") {
+            pendingId.clear();
+            c->openSession(false, false);
+            bool all = true; for (int x : counts) all = all && x == 1;
+            if (!all) oracleFail("C07:blk:caller-left-waiting", history); else oraclePass()++;
+        } else if (op == "resumed") {
+            c->openSession(true, true);
+        } else { fprintf(stderr, "harness bug: blk op %s\n", op.c_str()); exit(3); }
+        std::sort(evs.begin(), evs.end());
+        std::string o;
+        for (auto &e : evs) { if (!o.empty()) o += ","; o += std::to_string(e.first) + ":" + e.second; }
+        return (o.empty() ? "-" : o) + (m->isSubscribed() ? "|c=1" : "|c=0");
+    }
+};
+
+static void runBlkSeq(const std::vector<std::string> &ops)
+{
+    BlkEnv env;
+    corr("reset blk", "ok");
+    for (auto &op : ops) corr(op, env.apply(op));
+    corr("newsess", env.apply("newsess"));   // whatever is still waiting must complete now
+    for (int x : env.counts) if (x != 1) { oracleFail("C07:blk:call-not-completed-once", env.history); break; }
+    oraclePass()++;
+    stat("blk_sequences");
+}
+
+static void enumBlk(const std::vector<std::string> &alpha, int depth, std::vector<std::string> &cur)
+{
+    if ((int)cur.size() == depth) { runBlkSeq(cur); return; }
+    for (auto &a : alpha) { cur.push_back(a); enumBlk(alpha, depth, cur); cur.pop_back(); }
+}
+
+// ------------------------------------------------------------------------------------------------ Part F
+// QXmppClient::sendSensitiveIq with an encryption extension: encrypt -> request -> decrypt, one hand-rolled promise.
+struct SensEnv {
+    DummyE2ee e2ee;
+    std::unique_ptr<TestClient> c;
+    QObject ctx;
+    bool started = false, extDropped = false, answered = false;
+    QString sentId;
+    int finishes = 0;
+    std::vector<std::string> evs;
+    std::string history;
+
+    SensEnv()
+    {
+        e2ee.deferIq = true;
+        c = std::make_unique<TestClient>(QStringLiteral("me@own.org/res"));
+        c->setEncryptionExtension(&e2ee);
+    }
+    ~SensEnv() { c.reset(); }
+    std::string apply(const std::string &op)
+    {
+        evs.clear();
+        history += op + ";";
+        std::istringstream is(op); std::string w, arg; is >> w >> arg;
+        stat("sensop:" + w);
+        if (w == "start") {
+            if (!started && !extDropped) {
+                started = true;
+                QXmppIq iq(QXmppIq::Get); iq.setId(QStringLiteral("s1")); iq.setTo(QStringLiteral("bob@rem.org/r"));
+                c->sendSensitiveIq(std::move(iq)).then(&ctx, [this](IqResult &&r) {
+                    finishes++;
+                    if (finishes > 1) oracleFail("C07:sens:finished-twice", history);
+                    if (auto *el = std::get_if<QDomElement>(&r)) evs.push_back(el->attribute(QStringLiteral("dec")) == QL("1") ? "ok:1" : "ok:0");
+                    else evs.push_back("err");
+                });
+            }
+        } else if (w == "enc") {
+            for (auto &j : e2ee.encJobs) if (!j.done) {
+                j.done = true;
+                int before = c->sent.size();
+                if (arg == "1") j.p.finish(QXmppE2eeExtension::IqEncryptResult { std::make_unique<QXmppIq>(std::move(j.iq)) });
+                else j.p.finish(QXmppE2eeExtension::IqEncryptResult { QXmppError { QStringLiteral("no session"), {} } });
+                for (int k = before; k < c->sent.size(); k++) if (c->sent[k].startsWith(QL("<iq"))) sentId = attrOf(c->sent[k], QStringLiteral("id"));
+                break;
+            }
+        } else if (w == "iq") {
+            if (!sentId.isEmpty() && !answered) {
+                answered = true;
+                if (arg == "1") c->inject(QL("<iq xmlns='jabber:client' type='result' id='") + sentId + QL("' from='bob@rem.org/r'><x xmlns='urn:verif:payload'/></iq>"));
+                else c->inject(QL("<iq xmlns='jabber:client' type='error' id='") + sentId + QL("' from='bob@rem.org/r'><error type='cancel'><item-not-found xmlns='") + Q(NS_STANZA) + QL("'/></error></iq>"));
+            }
+        } else if (w == "dec") {
+            for (auto &j : e2ee.decJobs) if (!j.done) {
+                j.done = true;
+                if (arg == "ok") { QDomElement e2 = j.el.cloneNode(true).toElement(); e2.setAttribute(QStringLiteral("dec"), QStringLiteral("1")); j.p.finish(QXmppE2eeExtension::IqDecryptResult { e2 }); }
+                else if (arg == "ne") j.p.finish(QXmppE2eeExtension::IqDecryptResult { QXmppE2eeExtension::NotEncrypted {} });
+                else j.p.finish(QXmppE2eeExtension::IqDecryptResult { QXmppError { QStringLiteral("bad mac"), {} } });
+                break;
+            }
+        } else if (w == "dropext") {
+            extDropped = true;
+            c->setEncryptionExtension(nullptr);
+        } else { fprintf(stderr, "harness bug: sens op %s\n", op.c_str()); exit(3); }
+        std::string o;
+        for (auto &e : evs) { if (!o.empty()) o += ","; o += e; }
+        return o.empty() ? "-" : o;
+    }
+};
+
+static void runSensSeq(const std::vector<std::string> &ops)
+{
+    SensEnv env;
+    corr("reset sens", "ok");
+    for (auto &op : ops) corr(op, env.apply(op));
+    // every stage reports: the pipeline must have ended, exactly once
+    for (auto op : { "enc 1", "iq 1", "dec ok" }) corr(op, env.apply(op));
+    if (env.started) { if (env.finishes != 1) oracleFail("C07:sens:not-finished-once", env.history); else oraclePass()++; }
+    stat("sens_sequences");
+}
+
+static void enumSens(const std::vector<std::string> &alpha, int depth, std::vector<std::string> &cur)
+{
+    if ((int)cur.size() == depth) { runSensSeq(cur); return; }
+    for (auto &a : alpha) { cur.push_back(a); enumSens(alpha, depth, cur); cur.pop_back(); }
+}
+
 // ------------------------------------------------------------------------------------------------ Part C
 struct MgrCase {
     std::string name;
@@ -847,11 +1027,125 @@ static std::vector<MgrCase> mgrCases()
     add("blocking:unblock", [](TestClient &c, QObject *x, int *n) { countTask(ext<QXmppBlockingManager>(c)->unblock(QStringLiteral("eve@evil.org")), x, n); });
     add("upload:requestSlot", [](TestClient &c, QObject *x, int *n) { countTask(ext<QXmppUploadRequestManager>(c)->requestSlot(QStringLiteral("f.png"), 10, QMimeDatabase().mimeTypeForName(QStringLiteral("image/png")), QStringLiteral("upload.own.org")), x, n); });
     add("extdisco:requestServices", [](TestClient &c, QObject *x, int *n) { countTask(ext<QXmppExternalServiceDiscoveryManager>(c)->requestServices(QStringLiteral("own.org")), x, n); });
+    // --- MIX (needs discovery + pubsub managers)
+    auto mix = [](TestClient &c) { ext<QXmppDiscoveryManager>(c); ext<QXmppPubSubManager>(c); return ext<QXmppMixManager>(c); };
+    const QString CH = QStringLiteral("room@mix.own.org"), SVC = QStringLiteral("mix.own.org");
+    add("mix:createChannel", [=](TestClient &c, QObject *x, int *n) { countTask(mix(c)->createChannel(SVC, QStringLiteral("room")), x, n); });
+    add("mix:requestChannelJids", [=](TestClient &c, QObject *x, int *n) { countTask(mix(c)->requestChannelJids(SVC), x, n); });
+    add("mix:requestChannelNodes", [=](TestClient &c, QObject *x, int *n) { countTask(mix(c)->requestChannelNodes(CH), x, n); });
+    add("mix:requestChannelConfiguration", [=](TestClient &c, QObject *x, int *n) { countTask(mix(c)->requestChannelConfiguration(CH), x, n); });
+    add("mix:updateChannelConfiguration", [=](TestClient &c, QObject *x, int *n) { countTask(mix(c)->updateChannelConfiguration(CH, QXmppMixConfigItem()), x, n); });
+    add("mix:requestChannelInformation", [=](TestClient &c, QObject *x, int *n) { countTask(mix(c)->requestChannelInformation(CH), x, n); });
+    add("mix:updateChannelInformation", [=](TestClient &c, QObject *x, int *n) { countTask(mix(c)->updateChannelInformation(CH, QXmppMixInfoItem()), x, n); });
+    add("mix:joinChannel", [=](TestClient &c, QObject *x, int *n) { countTask(mix(c)->joinChannel(CH, QStringLiteral("nick")), x, n); });
+    add("mix:updateNickname", [=](TestClient &c, QObject *x, int *n) { countTask(mix(c)->updateNickname(CH, QStringLiteral("nick2")), x, n); });
+    add("mix:updateSubscriptions", [=](TestClient &c, QObject *x, int *n) { countTask(mix(c)->updateSubscriptions(CH), x, n); });
+    add("mix:requestInvitation", [=](TestClient &c, QObject *x, int *n) { countTask(mix(c)->requestInvitation(CH, QStringLiteral("bob@rem.org")), x, n); });
+    add("mix:requestAllowedJids", [=](TestClient &c, QObject *x, int *n) { countTask(mix(c)->requestAllowedJids(CH), x, n); });
+    add("mix:allowJid", [=](TestClient &c, QObject *x, int *n) { countTask(mix(c)->allowJid(CH, QStringLiteral("bob@rem.org")), x, n); });
+    add("mix:requestParticipants", [=](TestClient &c, QObject *x, int *n) { countTask(mix(c)->requestParticipants(CH), x, n); });
+    // --- moved, PEP request, remaining pubsub
+    auto moved = [](TestClient &c) { ext<QXmppDiscoveryManager>(c); ext<QXmppPubSubManager>(c); return ext<QXmppMovedManager>(c); };
+    add("moved:publishStatement", [=](TestClient &c, QObject *x, int *n) { countTask(moved(c)->publishStatement(QStringLiteral("new@own.org")), x, n); });
+    add("moved:verifyStatement", [=](TestClient &c, QObject *x, int *n) { countTask(moved(c)->verifyStatement(QStringLiteral("old@rem.org"), QStringLiteral("new@rem.org")), x, n); });
+    add("tune:request", [](TestClient &c, QObject *x, int *n) { ext<QXmppPubSubManager>(c); countTask(ext<QXmppUserTuneManager>(c)->request(QStringLiteral("bob@rem.org")), x, n); });
+    add("pubsub:requestOwnPepFeatures", [](TestClient &c, QObject *x, int *n) { countTask(ext<QXmppPubSubManager>(c)->requestOwnPepFeatures(), x, n); });
+    add("pubsub:requestNodeAffiliations", [](TestClient &c, QObject *x, int *n) { countTask(ext<QXmppPubSubManager>(c)->requestNodeAffiliations(QStringLiteral("pubsub.own.org"), QStringLiteral("node")), x, n); });
+    add("pubsub:createInstantNode-config", [](TestClient &c, QObject *x, int *n) { countTask(ext<QXmppPubSubManager>(c)->createInstantNode(QStringLiteral("pubsub.own.org"), QXmppPubSubNodeConfig()), x, n); });
+    // --- account migration: export runs the export functions registered by the roster and vCard managers in parallel
+    add("migration:exportData", [](TestClient &c, QObject *x, int *n) {
+        auto *mig = ext<QXmppAccountMigrationManager>(c);
+        ext<QXmppRosterManager>(c, &c); ext<QXmppVCardManager>(c);
+        countTask(mig->exportData(), x, n); });
+    add("migration:importData-empty", [](TestClient &c, QObject *x, int *n) {
+        auto *mig = ext<QXmppAccountMigrationManager>(c);
+        ext<QXmppRosterManager>(c, &c); ext<QXmppVCardManager>(c);
+        countTask(mig->importData(QXmppExportData()), x, n); });
     return v;
+}
+
+// which of the request-API functions listed by translators/promise_sites.py each part of this harness drives
+static std::map<std::string, std::vector<std::string>> coverageTable()
+{
+    return {
+        { "partA", { "IqState" } },
+        { "partB", { "RetrieveRequestState" } },
+        { "partE", { "QXmppBlockingManagerPrivate", "QXmppBlockingManager::fetchBlocklist" } },
+        { "partF", { "QXmppClient::sendSensitiveIq" } },
+        { "client:sendGenericIq", { "QXmppClient::sendGenericIq" } },
+        { "client:sendSensitiveIq", { "QXmppClient::sendSensitiveIq" } },
+        { "disco:requestDiscoInfo", { "QXmppDiscoveryManager::requestDiscoInfo" } },
+        { "disco:requestDiscoItems", { "QXmppDiscoveryManager::requestDiscoItems" } },
+        { "time:requestEntityTime", { "QXmppEntityTimeManager::requestEntityTime" } },
+        { "vcard:fetchVCard", { "QXmppVCardManager::fetchVCard" } },
+        { "pubsub:requestItems", { "QXmppPubSubManager::requestItems" } },
+        { "pubsub:requestItem", { "QXmppPubSubManager::requestItem" } },
+        { "pubsub:publishItem", { "QXmppPubSubManager::publishItem" } },
+        { "pubsub:publishItems", { "QXmppPubSubManager::publishItems" } },
+        { "pubsub:requestNodes", { "QXmppPubSubManager::requestNodes" } },
+        { "pubsub:createInstantNode", { "QXmppPubSubManager::createInstantNode" } },
+        { "pubsub:requestItemIds", { "QXmppPubSubManager::requestItemIds" } },
+        { "pubsub:requestSubscriptions", { "QXmppPubSubManager::requestSubscriptions" } },
+        { "pubsub:requestAffiliations", { "QXmppPubSubManager::requestAffiliations" } },
+        { "pubsub:requestNodeConfiguration", { "QXmppPubSubManager::requestNodeConfiguration" } },
+        { "pubsub:requestSubscribeOptions", { "QXmppPubSubManager::requestSubscribeOptions" } },
+        { "pubsub:requestOwnPepFeatures", { "QXmppPubSubManager::requestFeatures" } },
+        { "pubsub:requestNodeAffiliations", { "QXmppPubSubManager::requestNodeAffiliations" } },
+        { "mam:retrieveMessages", { "RetrieveRequestState" } },
+        { "blocking:fetchBlocklist-x2", { "QXmppBlockingManager::fetchBlocklist" } },
+        { "upload:requestSlot", { "QXmppUploadRequestManager::requestSlot" } },
+        { "extdisco:requestServices", { "QXmppExternalServiceDiscoveryManager::requestServices" } },
+        { "mix:createChannel", { "QXmppMixManager::createChannel" } },
+        { "mix:requestChannelJids", { "QXmppMixManager::requestChannelJids" } },
+        { "mix:requestChannelNodes", { "QXmppMixManager::requestChannelNodes" } },
+        { "mix:requestChannelConfiguration", { "QXmppMixManager::requestChannelConfiguration" } },
+        { "mix:updateChannelConfiguration", { "QXmppMixManager::updateChannelConfiguration" } },
+        { "mix:requestChannelInformation", { "QXmppMixManager::requestChannelInformation" } },
+        { "mix:updateChannelInformation", { "QXmppMixManager::updateChannelInformation" } },
+        { "mix:joinChannel", { "QXmppMixManager::joinChannel" } },
+        { "mix:updateNickname", { "QXmppMixManager::updateNickname" } },
+        { "mix:updateSubscriptions", { "QXmppMixManager::updateSubscriptions" } },
+        { "mix:requestInvitation", { "QXmppMixManager::requestInvitation" } },
+        { "mix:requestAllowedJids", { "QXmppMixManager::requestJids" } },
+        { "mix:allowJid", { "QXmppMixManager::addJidToNode" } },
+        { "mix:requestParticipants", { "QXmppMixManager::requestParticipants" } },
+        { "moved:publishStatement", { "QXmppMovedManager::publishStatement" } },
+        { "moved:verifyStatement", { "QXmppMovedManager::verifyStatement" } },
+        { "tune:request", { "request" } },
+        { "migration:exportData", { "QXmppAccountMigrationManager::exportData", "QXmppAccountMigrationManager::registerExportData",
+                                    "QXmppRosterManager::onRegistered", "QXmppRosterManager::requestRoster", "QXmppVCardManager::onRegistered" } },
+        { "migration:importData-empty", { "QXmppAccountMigrationManager::importData" } },
+    };
+}
+
+static void reportCoverage(const std::set<std::string> &ran)
+{
+    // .build/c07/promise_sites.txt is written by translators/promise_sites.py on every check run (cwd = .build)
+    FILE *f = fopen("c07/promise_sites.txt", "r");
+    if (!f) { printf("X coverage: c07/promise_sites.txt not found (translator not run)\n"); return; }
+    std::set<std::string> found;
+    char buf[512];
+    while (fgets(buf, sizeof buf, f)) {
+        std::string l = buf;
+        while (!l.empty() && (l.back() == '\n' || l.back() == '\r')) l.pop_back();
+        auto t = l.find('\t');
+        if (t != std::string::npos) found.insert(l.substr(t + 1));
+    }
+    fclose(f);
+    std::set<std::string> covered;
+    auto tab = coverageTable();
+    for (auto &r : ran) { auto it = tab.find(r); if (it != tab.end()) for (auto &fn : it->second) covered.insert(fn); }
+    std::string missing;
+    int hit = 0;
+    for (auto &fn : found) { if (covered.count(fn)) hit++; else missing += fn + " "; }
+    stat("api_functions_found", (long long)found.size());
+    stat("api_functions_exercised", hit);
+    printf("X request-API functions found by the translator: %zu, exercised by this harness: %d; not exercised: %s\n", found.size(), hit, missing.c_str());
 }
 
 static void runManagerLayer()
 {
+    std::set<std::string> ran = { "partA", "partB", "partE", "partF" };
     static const char *answers[] = { "empty-result", "error", "unexpected-payload", "silence-then-disconnect", "reply-from-stranger-then-disconnect" };
     for (auto &mc : mgrCases()) {
         for (const char *ans : answers) {
@@ -929,10 +1223,12 @@ static void runManagerLayer()
             }
             // after destruction of the client nothing may complete again
             if (count > expected) oracleFail("C07:mgr:" + mc.name + ":" + a + ":completed-again-at-destruction", mc.name);
+            ran.insert(mc.name);
             stat("mgr_cases");
             stat("mgr_requests_answered", rounds);
         }
     }
+    reportCoverage(ran);
 }
 
 // ------------------------------------------------------------------------------------------------ main
@@ -1080,6 +1376,24 @@ int main(int argc, char **argv)
             runNegSeq(ops);
         }
         stat("random_neg_sequences", nneg);
+    }
+
+    // ---- Part E: fetchBlocklist machine
+    {
+        std::vector<std::string> balpha = { "fetch", "iqok", "iqerr", "newsess", "resumed" };
+        int dBlk = a.mode == "fast" ? 4 : thorough ? 7 : 6;
+        runBlkSeq({ "fetch", "fetch", "iqerr", "fetch", "iqok", "fetch" });
+        for (int d = 1; d <= dBlk; d++) enumBlk(balpha, d, cur);
+        stat("exhaustive_depth_blk", dBlk); stat("alphabet_blk", (long long)balpha.size());
+    }
+    // ---- Part F: sendSensitiveIq pipeline
+    {
+        std::vector<std::string> salpha = { "start", "enc 1", "enc 0", "iq 1", "iq 0", "dec ok", "dec ne", "dec err", "dropext" };
+        int dSens = a.mode == "fast" ? 3 : thorough ? 5 : 4;
+        runSensSeq({ "start", "enc 1", "iq 1", "dec ok" });
+        runSensSeq({ "start", "enc 1", "dropext", "iq 1" });
+        for (int d = 1; d <= dSens; d++) enumSens(salpha, d, cur);
+        stat("exhaustive_depth_sens", dSens); stat("alphabet_sens", (long long)salpha.size());
     }
 
     // ---- Part C: manager layer
